@@ -31,21 +31,47 @@ def run_prog(cmd, text, timeout):
         return -9, out, "timeout"
 
 
-def run_chunks(cmd, cases, nproc=14, timeout=600):
-    """cases: list of {name, lines}. Runs `cmd` over chunks in parallel. -> dict name -> output lines, and list of process errors"""
+def run_serial(cmd, cases, timeout):
+    """Run `cases` through one process at a time; a case that exceeds `timeout` seconds (or crashes the process) is
+    recorded in `lost` and the remaining cases are re-queued to a fresh process.
+    -> (outputs dict, lost list of {name, why})"""
+    outs, lost = {}, []
+    pending = list(cases)
+    while pending:
+        text = "".join("case %s\n%s\n" % (c["name"], "\n".join(c["lines"])) for c in pending)
+        # budget: per-case timeout for the slowest case + a little for each other case
+        rc, out, err = run_prog(cmd, text, timeout + 0.5 * len(pending))
+        got, order = split_cases(out)
+        if rc == 0:
+            outs.update(got)
+            for c in pending:
+                if c["name"] not in got:
+                    lost.append({"name": c["name"], "why": "no output"})
+            break
+        # the last case that produced a `case` line is the one that did not finish
+        done = order[:-1] if order else []
+        for nme in done:
+            outs[nme] = got[nme]
+        culprit = order[-1] if order else pending[0]["name"]
+        lost.append({"name": culprit, "why": "timeout" if rc == -9 else f"crash rc={rc} {err[-300:]}"})
+        names_done = set(done) | {culprit}
+        pending = [c for c in pending if c["name"] not in names_done]
+    return outs, lost
+
+
+def run_chunks(cmd, cases, nproc=14, timeout=60):
+    """cases: list of {name, lines}. Runs `cmd` over chunks in parallel; `timeout` is per case.
+    -> dict name -> output lines, and list of lost cases {name, why}"""
     if not cases:
         return {}, []
     nchunks = min(nproc, len(cases))
     chunks = [cases[i::nchunks] for i in range(nchunks)]
-    texts = ["".join("case %s\n%s\n" % (c["name"], "\n".join(c["lines"])) for c in ch) for ch in chunks]
-    outs, errs = {}, []
+    outs, lost = {}, []
     with ThreadPoolExecutor(max_workers=nchunks) as ex:
-        for (rc, out, err), ch in zip(ex.map(lambda t: run_prog(cmd, t, timeout), texts), chunks):
-            got, _ = split_cases(out)
-            outs.update(got)
-            if rc != 0:
-                errs.append({"rc": rc, "stderr": err[-2000:], "cases": [c["name"] for c in ch if c["name"] not in got][:3]})
-    return outs, errs
+        for o, l in ex.map(lambda ch: run_serial(cmd, ch, timeout), chunks):
+            outs.update(o)
+            lost += l
+    return outs, lost
 
 
 def compare(cases, a, b):
